@@ -32,7 +32,7 @@ fn expressions() -> Vec<(String, &'static str)> {
     v.push(("`no substitution`".into(), "tpl"));
     v.push(("h`tagged ${a} ${b + c}`".into(), "tpl"));
     // method calls
-    let receivers = ["a", "a.b", "a[k]", "g()", "(a)", "(a, b)", "[a, b]", "'lit'", "this", "new K()", "`t${a}`", "a.prototype", "1.5", "a.b.c", "g().p", "a.trim()"];
+    let receivers = ["a", "a.b", "a[k]", "g()", "(a)", "(a, b)", "[a, b]", "'lit'", "this", "new K()", "`t${a}`", "a.prototype", "1.5", "a.b.c", "g().p", "a.trim()", "arguments[0]", "new.target.name", "(a || b)", "a.b?.c", "(a = b)", "(a++)", "(() => a)()", "a`t`", "new K", "/re/", "1n", "(a ? b : c)"];
     let methods = ["trim", "concat", "foo", "substring"];
     let args = ["", "a", "'l'", "a, g()", "...a", "a + b", "'x', 'y'", "b, ...c, d", "/re/g, a"];
     for r in receivers {
@@ -133,6 +133,35 @@ fn contexts() -> Vec<(&'static str, &'static str)> {
         ("top-level", "var t = {E};"),
         ("top-arrow", "var t = (a, b, c, o, k, i, x) => {E};"),
         ("module", "export default function (a, b, c, o, k, i, x) { return {E}; }"),
+        // round 5: positions that are expressions of a block without being statements of their own
+        ("class-heritage", "function f(a, b, c, o, k, i, x) { class C extends ({E}) { m() { return 1; } } return C; }"),
+        ("class-static-field", "function f(a, b, c, o, k, i, x) { class C { static s = {E}; static [{E}] = 1; } return C; }"),
+        ("class-accessors", "function f(a, b, c, o, k, i, x) { class C { get p() { return {E}; } set p(v) { x = {E}; } static sm() { return {E}; } #pm() { return {E}; } static async *ag() { yield {E}; } } return C; }"),
+        ("object-accessors", "function f(a, b, c, o, k, i, x) { return { get p() { return {E}; }, set p(v) { x = {E}; }, async am() { return {E}; }, *gm() { yield {E}; } }; }"),
+        ("destructuring-key", "function f(a, b, c, o, k, i, x) { ({ [{E}]: x } = o); [o[{E}]] = a; return x; }"),
+        ("destructuring-default", "function f(a, b, c, o, k, i, x) { const { p = {E} } = o; [x = {E}] = a; return p; }"),
+        ("catch-pattern-default", "function f(a, b, c, o, k, i, x) { try { g(); } catch ({ message = {E} }) { x = message; } return x; }"),
+        ("for-await", "async function f(a, b, c, o, k, i, x) { for await (const e of {E}) { x = e; } return x; }"),
+        ("for-of-member-target", "function f(a, b, c, o, k, i, x) { for (o[{E}] of a) { x = 1; } for (o[{E}] in a) x = 2; }"),
+        ("yield-star", "function* f(a, b, c, o, k, i, x) { x = yield* {E}; return x; }"),
+        ("in-operand", "function f(a, b, c, o, k, i, x) { return (k in ({E})) || (({E}) in o) || (({E}) instanceof K); }"),
+        ("new-argument", "function f(a, b, c, o, k, i, x) { return new K({E}, ...[{E}]); }"),
+        ("new-callee", "function f(a, b, c, o, k, i, x) { return new ({E})(a); }"),
+        ("tag-position", "function f(a, b, c, o, k, i, x) { return ({E})`t${a}`; }"),
+        ("spread-argument", "function f(a, b, c, o, k, i, x) { return g(...({E}), a); }"),
+        ("nested-template", "function f(a, b, c, o, k, i, x) { return `p${`q${{E}}`}r`; }"),
+        ("async-arrow", "function f(a, b, c, o, k, i, x) { return [async (p) => {E}, async (p) => { await ({E}); }]; }"),
+        ("with-body", "function f(a, b, c, o, k, i, x) { with (o) { x = {E}; } return x; }"),
+        ("switch-case-block", "function f(a, b, c, o, k, i, x) { switch (a) { case 1: { x = {E}; break; } case 2: x = {E}; default: { x = {E}; } } return x; }"),
+        ("chained-assign", "function f(a, b, c, o, k, i, x) { x = i = {E}; x ||= {E}; x ??= {E}; x &&= {E}; return x; }"),
+        ("arith-unary", "function f(a, b, c, o, k, i, x) { return [2 ** ({E}), -({E}), !({E}), void ({E}), ({E}) * 2, ({E}) == a]; }"),
+        ("optional-call-argument", "function f(a, b, c, o, k, i, x) { return [a?.({E}), a?.b({E}), a?.[k]({E})]; }"),
+        ("super-member", "function f(a, b, c, o, k, i, x) { class D extends K { constructor() { super({E}); } m() { return super[{E}]; } static sm() { return super.q({E}); } } return D; }"),
+        ("labeled-loops", "function f(a, b, c, o, k, i, x) { L1: for (;;) { L2: do { x = {E}; continue L1; } while ({E}); break L1; } return x; }"),
+        ("iife", "function f(a, b, c, o, k, i, x) { return (function (p) { return {E}; })(a) + (() => { return {E}; })(); }"),
+        ("getter-in-class-expression", "function f(a, b, c, o, k, i, x) { return new (class { get v() { return {E}; } })().v; }"),
+        ("export-const", "export const v1 = (a, b, c, o, k, i, x) => { return {E}; };"),
+        ("module-top-level-await", "const a = 1, b = 2, c = 3, o = {}, k = 0, i = 0; let x; export async function f() { x = await ({E}); } await f();"),
     ]
 }
 
